@@ -199,8 +199,18 @@ def w_structured(ctx, rng, idx):
     n = int(rng.integers(2, 5))
     dims = [n] * d
     with probe.oracle():
-        k = int(rng.integers(0, 3))
-        if k == 0:
+        k = int(rng.integers(0, 4))
+        if k == 3:
+            # a Kronecker product of positive-definite factors (all TT ranks 1, not diagonal), unequal mode sizes allowed
+            dims = [int(rng.integers(2, 5)) for _ in range(d)]
+            n = max(dims)
+            fs = []
+            for m in dims:
+                h = rng.standard_normal((m, m))
+                fs.append((h @ h.T + np.eye(m)).reshape(1, m, m, 1))
+            A = tt.TT(fs)
+            okind = 'kronecker_of_positive_definite_factors'
+        elif k == 0:
             A = float(2.0 ** int(rng.integers(-2, 3))) * tt.eye(dims)
             okind = 'scaled_identity'
         else:
@@ -211,12 +221,12 @@ def w_structured(ctx, rng, idx):
                 okind += '+identity'
         u = int(rng.integers(0, 3))
         if u == 0:
-            b = tt.unit(dims, [int(rng.integers(0, n)) for _ in range(d)])
+            b = tt.unit(dims, [int(rng.integers(0, m_)) for m_ in dims])
             bkind = 'unit_vector'
         elif u == 1:
-            m = int(rng.integers(2, n + 1))
+            m = int(rng.integers(2, min(dims) + 1))
             b = None
-            for i in rng.permutation(n)[:m]:
+            for i in rng.permutation(min(dims))[:m]:
                 t = tt.unit(dims, [int(i)] * d)
                 b = t if b is None else b + t
             bkind = 'ghz_%d' % m
@@ -228,12 +238,35 @@ def w_structured(ctx, rng, idx):
     ctx.describe({'op': 'sle.als/mals on exactly representable problems', 'dims': dims, 'operator': okind, 'rhs': bkind, 'guess_ranks': g.ranks, 'solver': solver})
     tags = ['structured', 'solver=' + solver]
     call('sle.als', sle.als, A, g, b, prop=P, tags=['als'] + tags, refusals=(np.linalg.LinAlgError,), repeats=int(rng.integers(1, 3)), solver=solver)
+    # a guess of maximal ranks: one sweep gives the exact solution, also for sparse right-hand sides and rank-1 operators
+    gm = guess(rng, dims, False, 'maximal')
+    if rng.random() < 0.6:
+        # ... with sparse cores (selection matrices: maximal ranks, but every core touches only a few coordinates - frames that are
+        # orthogonal to parts of a sparse right-hand side)
+        with probe.oracle():
+            rk = gen.max_ranks(dims, [1] * d)
+            cs = []
+            for i in range(d):
+                for _ in range(50):  # sparse integer cores whose left and right unfoldings both have full rank (admissible frames)
+                    M = rng.choice([0.0, 0.0, 1.0, -1.0, 2.0], size=(rk[i], dims[i], 1, rk[i + 1]))
+                    if np.linalg.matrix_rank(M.reshape(rk[i] * dims[i], rk[i + 1])) == rk[i + 1] and np.linalg.matrix_rank(M.reshape(rk[i], dims[i] * rk[i + 1])) == rk[i]:
+                        break
+                else:
+                    M = rng.standard_normal((rk[i], dims[i], 1, rk[i + 1]))
+                cs.append(M)
+            gm = tt.TT(cs)
+    for name, fn, kwx in (('als', sle.als, {}), ('mals', sle.mals, {'threshold': 0})):
+        ok, xx = call('sle.' + name, fn, A, gm, b, prop=P, tags=[name] + tags, refusals=(np.linalg.LinAlgError,), repeats=1, solver=solver, **kwx)
+        if ok:
+            e = aerr(A, b, xx)
+            ctx.check('sle.' + name, 'maximal_rank_guess_exact_after_one_sweep', e[0] <= 1e-7 * e[1] * np.sqrt(e[2]) + 1e-300, [name] + tags,
+                      {'err': e[0], 'norm': e[1], 'cond': e[2], 'dims': dims, 'operator': okind, 'rhs': bkind}, prop=P)
     for thr in (0, 1e-12, None):
         kw = {'solver': solver, 'repeats': int(rng.integers(1, 3))}
         if thr is not None:
             kw['threshold'] = thr
         call('sle.mals', sle.mals, A, g, b, prop=P, tags=['mals'] + tags, refusals=(np.linalg.LinAlgError,), **kw)
-        kw['max_rank'] = int(rng.integers(1, n + 1))
+        kw['max_rank'] = int(rng.integers(1, max(dims) + 1))
         call('sle.mals', sle.mals, A, g, b, prop=P, tags=['mals', 'capped', 'threshold=%s' % thr] + tags, refusals=(np.linalg.LinAlgError,), **kw)
 
 
